@@ -109,6 +109,20 @@ STMTS = [
     ("for.tuple-target", "for a, b in PP:\n    r19 = (a, b)", ["PP"], []),
     ("for.starred-target", "for a, *b in P3:\n    r19 = (a, b)", ["P3"], []),
     ("for.else", "for a in R:\n    pass\nelse:\n    r19 = (a, z)", ["R", "z"], []),
+    # a local name bound for the first time inside a compound statement of a function, read after it
+    ("def.first-bound-in-except-as-handler", "def g():\n    try:\n        raise ValueError(z)\n    except ValueError as e:\n        fb = e.args\n    return fb\nr19 = g()", ["z"], ["e", "fb"]),
+    ("def.first-bound-in-except-handler", "def g():\n    try:\n        raise ValueError(z)\n    except ValueError:\n        fb = z\n    return fb\nr19 = g()", ["z"], ["fb"]),
+    ("def.first-bound-in-except-star-handler", "def g():\n    try:\n        raise ExceptionGroup('g', [ValueError(z)])\n    except* ValueError as eg:\n        fb = eg.exceptions[0].args\n    return fb\nr19 = g()", ["z"], ["eg", "fb"]),
+    ("def.first-bound-in-try-else", "def g():\n    try:\n        pass\n    except ValueError:\n        pass\n    else:\n        fb = z\n    return fb\nr19 = g()", ["z"], ["fb"]),
+    ("def.first-bound-in-finally", "def g():\n    try:\n        pass\n    finally:\n        fb = z\n    return fb\nr19 = g()", ["z"], ["fb"]),
+    ("def.first-bound-in-with-body", "def g():\n    with cm19(z) as w:\n        fb = w\n    return fb\nr19 = g()", ["z"], ["w", "fb"]),
+    ("def.first-bound-in-for-body", "def g():\n    for a in R:\n        fb = (a, z)\n    return fb\nr19 = g()", ["R", "z"], ["a", "fb"]),
+    ("def.first-bound-in-for-else", "def g():\n    for a in R:\n        pass\n    else:\n        fb = z\n    return fb\nr19 = g()", ["R", "z"], ["a", "fb"]),
+    ("def.first-bound-in-while-body", "def g():\n    while True:\n        fb = z\n        break\n    return fb\nr19 = g()", ["z"], ["fb"]),
+    ("def.first-bound-in-if-else", "def g():\n    if z is None:\n        fb = 0\n    else:\n        fb = z\n    return fb\nr19 = g()", ["z"], ["fb"]),
+    ("def.first-bound-in-match-case", "def g():\n    match z:\n        case _:\n            fb = z\n    return fb\nr19 = g()", ["z"], ["fb"]),
+    ("def.first-bound-in-nested-handler-of-inner-def", "def g():\n    def h():\n        try:\n            raise KeyError(z)\n        except KeyError as e:\n            fb = e.args\n        return fb\n    return h()\nr19 = g()", ["z"], ["e", "fb", "h"]),
+    ("lambda-after-handler", "def g():\n    try:\n        raise ValueError(z)\n    except ValueError as e:\n        fb = e.args\n    k = lambda: fb\n    return k()\nr19 = g()", ["z"], ["e", "fb", "k"]),
     ("def.comp-iter-reads-the-target-name", "def g():\n    return [R for R in R]\nr19 = g()", ["R"], []),
     ("import.dotted3", "import xml.sax.saxutils\nr19 = xml.sax.saxutils.escape('<')", [], []),
     ("import.dotted3-two", "import os, xml.sax.saxutils\nr19 = (os.sep, xml.sax.saxutils.escape('<'))", [], []),
